@@ -25,7 +25,7 @@ func encPieces(out []int64, ps []xpiece) []int64 {
 		switch p.kind {
 		case 0:
 			out = append(out, int64(p.c))
-		case 1:
+		case 1, 3:
 			out = encBytesStr(out, p.s)
 		default:
 			out = encPieces(out, p.inner)
@@ -115,8 +115,8 @@ func (r *intReader) pieces(depth int) []xpiece {
 		switch {
 		case k == 0:
 			ps = append(ps, xpiece{kind: 0, c: byte(r.next())})
-		case k == 1:
-			ps = append(ps, xpiece{kind: 1, s: r.str()})
+		case k == 1 || k == 3:
+			ps = append(ps, xpiece{kind: int(k), s: r.str()})
 		case depth == 0:
 			ps = append(ps, xpiece{kind: 2, inner: r.pieces(1)})
 		default:
@@ -222,6 +222,8 @@ func xmlspecGen(r *Rng, tier string, emit func(Case)) {
 		{kind: itCdata, s: ""}, {kind: itCdata, s: "]"}, {kind: itCdata, s: "]]"}, {kind: itCdata, s: "]>"}, {kind: itCdata, s: "]]]"}, {kind: itCdata, s: ">"},
 		{kind: itDoctype}, {kind: itDoctype, pieces: []xpiece{{kind: 1, s: ">"}}}, {kind: itDoctype, pieces: []xpiece{{kind: 2}}},
 		{kind: itDoctype, pieces: []xpiece{{kind: 2, inner: []xpiece{{kind: 0, c: '>'}, {kind: 0, c: '['}, {kind: 1, s: "]"}}}}},
+		{kind: itDoctype, pieces: []xpiece{{kind: 3, s: ">"}}}, {kind: itDoctype, pieces: []xpiece{{kind: 3, s: "\"]["}, {kind: 1, s: "'"}}},
+		{kind: itDoctype, pieces: []xpiece{{kind: 2, inner: []xpiece{{kind: 3, s: "]\">"}, {kind: 0, c: '>'}}}}},
 		{kind: itPI, s: "a"}, {kind: itPI, s: "a", ws: " "},
 		{kind: itStart, s: "a"}, {kind: itStart, s: "a", void: true}, {kind: itStart, s: "a", ws: "\t\n", void: true},
 		{kind: itStart, s: "a", attrs: []xattr{{lead: " ", name: "b", q: '"', val: ""}}},
